@@ -145,6 +145,29 @@ func mutate(tag string, base []byte, everyByte, pairs bool, emit func(input)) {
 			}
 		}
 	}
+	// table level: drop a whole table (header and body), or empty it (header kept, body dropped)
+	isHeader := func(l string) bool { return strings.HasPrefix(strings.TrimSpace(l), "[") }
+	for i := range ls {
+		if !isHeader(ls[i]) {
+			continue
+		}
+		j := i + 1
+		for j < len(ls) && !isHeader(ls[j]) {
+			j++
+		}
+		emit(input{fmt.Sprintf("%s:del-table-at-line-%d", tag, i+1), join(append(append([]string{}, ls[:i]...), ls[j:]...))})
+		if j > i+1 {
+			emit(input{fmt.Sprintf("%s:empty-table-at-line-%d", tag, i+1), join(append(append([]string{}, ls[:i+1]...), ls[j:]...))})
+		}
+	}
+	if pairs {
+		// every contiguous range of lines removed
+		for i := range ls {
+			for j := i + 2; j <= len(ls); j++ {
+				emit(input{fmt.Sprintf("%s:del-range-%d-%d", tag, i+1, j), join(append(append([]string{}, ls[:i]...), ls[j:]...))})
+			}
+		}
+	}
 	if everyByte {
 		for n := 0; n < len(base); n++ {
 			emit(input{fmt.Sprintf("%s:trunc-at-byte-%d", tag, n), base[:n]})
@@ -382,7 +405,7 @@ func main() {
 		if err != nil {
 			vutil.Fail(*out, err.Error())
 		}
-		mutate(filepath.Base(f), b, len(b) <= 2048 || *tier == "thorough", false, emit)
+		mutate(filepath.Base(f), b, len(b) <= 2048 || *tier == "thorough", *tier == "thorough", emit)
 	}
 	mutate("synthetic", []byte(synthetic), true, true, emit)
 	maxTok := 5
